@@ -39,6 +39,16 @@ func doLZ4Encode(data []byte, level int) ([]byte, error) {
 func doLZ4Decode(buf []byte) ([]byte, error) {
 	dst := make([]byte, 10*len(buf))
 	n, err := lz4.UncompressBlock(buf, dst)
+	// 压缩率大于10时缓冲区不足（lz4的最大压缩率约为255），扩大缓冲区后重试
+	maxSize := 255*len(buf) + 64
+	for err == lz4.ErrInvalidSourceShortBuffer && len(dst) < maxSize {
+		size := 4*len(dst) + 64
+		if size > maxSize {
+			size = maxSize
+		}
+		dst = make([]byte, size)
+		n, err = lz4.UncompressBlock(buf, dst)
+	}
 	if err != nil {
 		return nil, err
 	}
